@@ -274,25 +274,42 @@ Theorem C17_guard_requires_support_header :
 Proof. exact (conj guard_requires_support_header (conj omit_c_no_asserts omit_cpp_no_asserts)). Qed.
 Print Assumptions C17_guard_requires_support_header.
 
-(* (9) The string literals of the assertion messages interpolate only (a) literal-safe template expressions -- the
-   DSDL file name, the option key, the DSDL path with backslash and double quote escaped -- or (b) the raw DSDL
-   path; never an option value (documented values contain double quotes, which would break the build of
-   IDENTICAL option sets; conjunct of sides_agree).  (b) is finding F-OPTGUARD-MSG-PATH: with
-   --embed-auditing-info a directory name containing a double quote or a backslash ends the literal and identical option sets do
-   not build (reproduced; design_notes/C17_message_escape_fix.patch).  Once a side's messages are all of kind (a)
-   (msg_path_escaped, a regenerated fact reported in the evidence) every interpolated expression is literal-safe. *)
+(* (9) The string literals of the assertion messages interpolate only literal-safe pieces: the DSDL file name, the
+   option key, and the DSDL path passed through the regenerated chain of `replace` filters (sd_path_escape); never
+   an option value (conjunct of sides_agree).  The chain is MODELLED (apply_escape) and checked exhaustively on every
+   path of at most 5 characters over the hostile alphabet (double quote, backslash, question mark, slash, apostrophe,
+   right parenthesis, a letter) against a lexer of string-literal bodies (lit_ok): no bare double quote, every
+   backslash starts one of the escapes the chain emits.  Fix of F-OPTGUARD-MSG-PATH; live. *)
 Theorem C17_messages_literal_safe :
   (forall sd, In sd [c_support_side; c_type_side; cpp_support_side; cpp_type_side] ->
-     forall e, In e (sd_msg_exprs sd) -> In e safe_msg_exprs \/ In e raw_path_msg_exprs) /\
-  (forall sd, msg_path_escaped sd = true -> forall e, In e (sd_msg_exprs sd) -> In e safe_msg_exprs) /\
-  str_in [118; 97; 108; 117; 101] (* value *) (safe_msg_exprs ++ raw_path_msg_exprs) = false /\
-  str_in sav_expr (safe_msg_exprs ++ raw_path_msg_exprs) = false.
+     forall e, In e (sd_msg_exprs sd) -> In e safe_msg_exprs) /\
+  str_in [118; 97; 108; 117; 101] (* value *) safe_msg_exprs = false /\ str_in sav_expr safe_msg_exprs = false.
 Proof.
-  split; [|split; [exact msg_escaped_spec | exact value_not_literal_safe]].
+  split; [|exact value_not_literal_safe].
   intros sd Hsd. apply msg_safe_spec.
   exact (proj1 (forallb_forall _ _) all_messages_literal_safe sd Hsd).
 Qed.
 Print Assumptions C17_messages_literal_safe.
+
+Example C17_message_path_escaped_live :
+  forallb path_escape_ok [c_support_side; c_type_side; cpp_support_side; cpp_type_side] = true.
+Proof. exact all_paths_escaped. Qed.
+
+(* (9') Under the ISO modes (-std=c11, -std=c++14) trigraphs are replaced first: ??/ is a backslash.  Escaping
+   backslash and double quote alone leaves `a??/u` an invalid literal (finding F-OPTGUARD-TRIGRAPH, reproduced; fix
+   proposal design_notes/C17_trigraph_fix.patch adds ? -> \?).  Facts about the two chains, independent of the tree.
+   TO FLIP when the fix is landed: enable `C17_path_trigraph_safe_live` below and set the finding to fixed. *)
+Theorem C17_escape_chain_facts :
+  escape_quote_safe chain_bq = true /\ escape_trigraph_safe chain_bq = false /\
+  lit_ok (detrigraph (apply_escape chain_bq [97; 63; 63; 47; 117])) = false /\
+  escape_quote_safe chain_bqq = true /\ escape_trigraph_safe chain_bqq = true /\
+  escape_quote_safe [] = false.
+Proof. exact chain_facts. Qed.
+Print Assumptions C17_escape_chain_facts.
+
+(* Example C17_path_trigraph_safe_live :
+     forallb path_trigraph_ok [c_support_side; c_type_side; cpp_support_side; cpp_type_side] = true.
+   Proof. vm_compute. reflexivity. Qed. *)
 
 (* ---- non-vacuity ---- *)
 (* the hypotheses of (1) are satisfied by the defaults of properties.yaml ... *)
